@@ -729,8 +729,7 @@ theorem padSrc_wrap (n lo j : Nat) (hn : 0 < n) :
     · have h0 := Int.emod_nonneg ((j : Int) - (lo : Int)) hnz
       rw [Int.toNat_of_nonneg h0]
       have := Int.emod_add_mul_ediv ((j : Int) - (lo : Int)) (n : Int)
-      rw [Int.mul_comm] at this
-      omega
+      linarith
 
 /-- mode `symmetric` is the mirror continuation about the boundary faces: position `j` shows
 source cell `i` where either `j - lo = i` modulo `2n` (even image) or `j - lo = -1 - i` modulo
@@ -751,15 +750,12 @@ theorem padSrc_symmetric (n lo j : Nat) (hn : 0 < n) :
         ((j : Int) - (lo : Int)) / (2 * (n : Int)), Or.inl ?_⟩
       · unfold padSrc; rw [if_neg hin]; simp only; rw [if_pos hlt]
       · rw [Int.toNat_of_nonneg h0]
-        rw [Int.mul_comm] at hdiv; omega
+        linarith
     · refine ⟨(2 * (n : Int) - 1 - (((j : Int) - (lo : Int)) % (2 * (n : Int)))).toNat, ?_, by omega,
         ((j : Int) - (lo : Int)) / (2 * (n : Int)) + 1, Or.inr ?_⟩
       · unfold padSrc; rw [if_neg hin]; simp only; rw [if_neg hlt]
       · rw [Int.toNat_of_nonneg (by omega)]
-        rw [Int.mul_comm] at hdiv
-        have : (((j : Int) - (lo : Int)) / (2 * (n : Int)) + 1) * (2 * (n : Int))
-            = ((j : Int) - (lo : Int)) / (2 * (n : Int)) * (2 * (n : Int)) + 2 * (n : Int) := by ring
-        omega
+        linarith
 
 /-- mode `reflect` is the mirror continuation about the centres of the boundary cells: period
 `2n - 2`, `j - lo = ± i` modulo the period (for a single-cell axis numpy repeats the cell). -/
@@ -780,15 +776,12 @@ theorem padSrc_reflect (n lo j : Nat) (hn : 2 ≤ n) :
         ((j : Int) - (lo : Int)) / (2 * (n : Int) - 2), Or.inl ?_⟩
       · unfold padSrc; rw [if_neg hin]; simp only; rw [if_neg hn1, if_pos hlt]
       · rw [Int.toNat_of_nonneg h0]
-        rw [Int.mul_comm] at hdiv; omega
+        linarith
     · refine ⟨(2 * (n : Int) - 2 - (((j : Int) - (lo : Int)) % (2 * (n : Int) - 2))).toNat, ?_, by omega,
         ((j : Int) - (lo : Int)) / (2 * (n : Int) - 2) + 1, Or.inr ?_⟩
       · unfold padSrc; rw [if_neg hin]; simp only; rw [if_neg hn1, if_neg hlt]
       · rw [Int.toNat_of_nonneg (by omega)]
-        rw [Int.mul_comm] at hdiv
-        have : (((j : Int) - (lo : Int)) / (2 * (n : Int) - 2) + 1) * (2 * (n : Int) - 2)
-            = ((j : Int) - (lo : Int)) / (2 * (n : Int) - 2) * (2 * (n : Int) - 2) + (2 * (n : Int) - 2) := by ring
-        omega
+        linarith
 
 /-- The index statement of `padSrc_wrap` in physical terms: if source cell `i` is shown at
 position `j` of an axis padded by `L` cells in front, with `j - L = i + k·n`, then the two cell
